@@ -87,7 +87,7 @@ def gen_world(rng, n):
         def dt():
             return NONE if rng.random() < 0.4 else dcell(rng.choice(DATES))
         def nm():
-            return NONE if rng.random() < 0.3 else ncell(rng.choice([0, 1, 3, 2.5, 0.1, 0.25, 12, 7.75]))
+            return NONE if rng.random() < 0.3 else ncell(rng.choice([0, 1, 3, 2.5, 0.1, 0.25, 12, 7.75, 5e-05, 1e-05, 1234567.125]))   # incl. values whose text is in exponent notation
         W["f"].append({"name": tx(), "resource": tx(), "start": dt(), "end": dt(), "est": nm(), "spent": nm(),
                        "ms": rng.random() < 0.2, "minstart": dt() if rng.random() < 0.4 else NONE})
         cu = []
